@@ -5,8 +5,8 @@ MODE = "src"
 EXPLANATION = ("Inductive step over an arbitrary writer pre-state (symbolic prefix bytes, symbolic sanitisation mode): one add_* call with symbolic arguments; integers are unbounded "
                "symbolic (in range, at the limit, far beyond), strings are arbitrary code points 0..0x10FFFF, length/padded arguments symbolic. The writer is append-only, which the "
                "'earlier content untouched' obligation checks, so one step covers histories of any length.")
-BOUNDS = {"quick": "prefix 0..2 bytes; integers: every v >= 0; strings: every string of 0..4 code points, length argument 0..len+3 and len+254..len+258 (padding across the 255/256 boundary), both padded values, both modes",
-          "thorough": "prefix 0..2 bytes; integers: every v >= 0; strings of 0..6 code points"}
+BOUNDS = {"quick": "prefix 0..2 bytes; integers: every v >= 0; strings: every string of 0..4 code points, length argument 0..len+3 and len+254..len+258 (padding across the 255/256 boundary), both padded values, both modes; the same steps on a writer with a past (padded / plain / numeric / rejected writes, a mode toggle); writers already holding 300 bytes; strings of 66 and 130 symbolic characters",
+          "thorough": "prefix 0..2 bytes; integers: every v >= 0; strings of 0..6 code points; writers holding 66,000 bytes; strings of 33..520 characters"}
 OUTSIDE = "negative integers (excluded by the property); strings longer than the bound"
 ASSUMPTIONS = []
 NUM = ("byte", "char", "short", "three", "int")
